@@ -72,6 +72,8 @@ Definition run_tlv (op : Z) (a : args) : args :=
   | 1005 => ret (fun b => [[b2z b]])
               (do x <- tlv_new (int 0 0 a) (lst 1 a); do y <- tlv_new (int 2 0 a) (lst 3 a);
                Ok (tlv_eqb x y))
+  | 1006 => ret (fun _ => [[0]])
+              (do x <- tlv_new (int 0 0 a) (lst 1 a); check_type (tlv_type x) (int 2 0 a))
   (* entity id *)
   | 1010 => ret (wrap_view TLV_ENTITY_ID) (entity_new (lst 0 a))
   | 1011 => ret (wrap_view TLV_ENTITY_ID) (entity_unpack (lst 0 a))
